@@ -1274,7 +1274,7 @@ class AstEval:
                                 return val
                     finally:
                         if handler.name is not None:
-                            del self.sym_table[handler.name]
+                            self.sym_table.pop(handler.name, None)
                     break
             else:
                 raise err
